@@ -60,10 +60,16 @@ type c04Cell struct {
 	MapState string `json:"map_state"`
 	Identity string `json:"identity"`
 	Cred     string `json:"cred"`
+	// NoActivity: skip the intervening legitimate activity (racing draws only)
+	NoActivity bool `json:"no_activity,omitempty"`
 }
 
 func (c c04Cell) key() string {
-	return c.Kind + "|" + c.Tunnel + "|" + c.MapState + "|" + c.Identity + "|" + c.Cred
+	k := c.Kind + "|" + c.Tunnel + "|" + c.MapState + "|" + c.Identity + "|" + c.Cred
+	if c.NoActivity {
+		k += "|quiet"
+	}
+	return k
 }
 
 var (
@@ -71,7 +77,9 @@ var (
 	c04Tunnels    = []string{"none", "waiting", "served"}
 	c04MapStates  = []string{"active", "revoked", "revoked-reactivated", "expired-1s", "expired-1m", "expired-1h", "inactive", "missing"}
 	c04Identities = []string{"unauth", "unauth-p1", "listen", "target", "other"}
-	c04Creds      = []string{"id", "id+secret", "id+wrong", "resume", "none"}
+	c04Creds      = []string{"id", "id+secret", "id+wrong", "resume", "none",
+		// near misses derived from the right secret: only the exact secret is "the mapping's secret"
+		"id+prefix1", "id+prefix-half", "id+prefix-allbutlast", "id+secret+suffix", "id+caseflip", "id+onechar", "id+padded"}
 
 	// how far in the past the stored ExpiresAt lies (a mapping that expired a second ago is expired)
 	c04ExpiryOffsets = map[string]time.Duration{"expired-1s": time.Second, "expired-1m": time.Minute, "expired-1h": time.Hour}
@@ -99,7 +107,7 @@ func c04Policy(c c04Cell) (entitled bool, why string, ambiguous bool) {
 		return false, "no-credential", false
 	case "resume":
 		return false, "garbage-resume-token", false
-	case "id+wrong":
+	case "id+wrong", "id+prefix1", "id+prefix-half", "id+prefix-allbutlast", "id+secret+suffix", "id+caseflip", "id+onechar", "id+padded":
 		return false, "wrong-secret", false
 	case "id":
 		switch c.Identity {
@@ -549,12 +557,85 @@ func (w *c04World) requesterRequest() *packet.TunnelOpenRequest {
 	case "id+wrong":
 		req.MappingID = w.mapID
 		req.SecretKey = "not-the-secret-" + w.secret
+	case "id+prefix1", "id+prefix-half", "id+prefix-allbutlast", "id+secret+suffix", "id+caseflip", "id+onechar", "id+padded":
+		req.MappingID = w.mapID
+		req.SecretKey = c04NearMiss(w.cell.Cred, w.secret)
 	case "resume":
 		req.MappingID = w.mapID
 		req.ResumeToken = "Z2FyYmFnZS1yZXN1bWUtdG9rZW4.c2ln"
 	case "none":
 	}
 	return req
+}
+
+// c04NearMiss derives a credential that is NOT the secret but close to it.
+func c04NearMiss(kind, secret string) string {
+	if len(secret) < 4 {
+		return "x" + secret + "x"
+	}
+	switch kind {
+	case "id+prefix1":
+		return secret[:1]
+	case "id+prefix-half":
+		return secret[:len(secret)/2]
+	case "id+prefix-allbutlast":
+		return secret[:len(secret)-1]
+	case "id+secret+suffix":
+		return secret + "0"
+	case "id+caseflip":
+		b := []byte(secret)
+		for i, c := range b {
+			if c >= 'a' && c <= 'z' {
+				b[i] = c - 'a' + 'A'
+				break
+			}
+			if c >= 'A' && c <= 'Z' {
+				b[i] = c - 'A' + 'a'
+				break
+			}
+		}
+		return string(b)
+	case "id+onechar":
+		b := []byte(secret)
+		i := len(b) - 1
+		if b[i] == 'z' {
+			b[i] = 'y'
+		} else {
+			b[i] = 'z'
+		}
+		return string(b)
+	case "id+padded":
+		return " " + secret + " "
+	}
+	return "not-" + secret
+}
+
+// legitActivity is what the mapping's own parties and the server legitimately keep doing
+// between the moment the mapping reached its state and the requester's TunnelOpen:
+// traffic reports of both parties through the real command path on their control
+// connections, the server-side stats update, a heartbeat, a config fetch. None of it may
+// make a revoked / expired / inactive / deleted mapping usable again; the policy is
+// decided by the state the harness established.
+func (w *c04World) legitActivity() {
+	for i, c := range []*miniClient{w.L, w.T} {
+		body, _ := json.Marshal(&packet.TrafficReportRequest{MappingID: w.mapID, BytesSent: 4096 + int64(i), BytesReceived: 1024, Connections: 1, Timestamp: time.Now().UnixMilli()})
+		err := c.Send(&packet.TransferPacket{PacketType: packet.JsonCommand, CommandPacket: &packet.CommandPacket{
+			CommandType: packet.TunnelTrafficReport, CommandId: fmt.Sprintf("c04-tr-%d", i), CommandBody: string(body)}})
+		w.logf("traffic report by party %d: err=%v", i, err)
+		_ = c.Send(&packet.TransferPacket{PacketType: packet.Heartbeat})
+	}
+	if m, err := w.n.CC.GetPortMapping(w.mapID); err == nil {
+		st := m.TrafficStats
+		st.BytesSent += 777
+		st.BytesReceived += 333
+		st.LastUpdated = time.Now()
+		w.logf("server-side stats update: err=%v", w.n.CC.UpdatePortMappingStats(w.mapID, &st))
+	}
+	if cc := w.n.SM.GetControlConnectionByClientID(w.L.ClientID); cc != nil {
+		_, err := w.n.Auth.GetClientConfig(cc)
+		w.logf("config fetch by listen client: err=%v", err)
+	}
+	w.run.Count("cells_with_intervening_activity", 1)
 }
 
 // runCell executes one cell; ok=false means the harness could not set the cell up
@@ -615,6 +696,11 @@ func c04RunCell(t *testing.T, run *vk.Run, cell c04Cell, idx int) (obs c04Obs, o
 	}
 	if stErr != nil {
 		return fail("map state: %v", stErr)
+	}
+	// ---- intervening legitimate activity (no re-check afterwards: the state the harness
+	// established decides the policy) ----
+	if !cell.NoActivity {
+		w.legitActivity()
 	}
 	// ---- the requester ----
 	var id int64
@@ -806,10 +892,10 @@ func c04Cells(tunnels []string) []c04Cell {
 			for _, ms := range c04MapStates {
 				for _, id := range c04Identities {
 					for _, cr := range c04Creds {
-						if k == "conncode" && cr == "id+secret" {
-							continue // empty secret: same request as "id"
+						if k == "conncode" && cr != "id" && cr != "id+wrong" && cr != "resume" && cr != "none" {
+							continue // empty secret: "id+secret" is the same request as "id"; no near misses of an empty secret
 						}
-						out = append(out, c04Cell{k, tu, ms, id, cr})
+						out = append(out, c04Cell{Kind: k, Tunnel: tu, MapState: ms, Identity: id, Cred: cr})
 					}
 				}
 			}
@@ -845,7 +931,7 @@ func c04RunMatrix(t *testing.T, run *vk.Run, cells []c04Cell) {
 func TestVerifC04Matrix(t *testing.T) {
 	run := vk.Start(t, "C04", "matrix")
 	defer run.Finish()
-	run.Rule("full product mapping-kind{keyed,conncode} x tunnel-state{none,waiting,served} x mapping-state{active,revoked,expired,inactive,missing} x identity{unauth,unauth-p1,listen,target,other} x credential{id,id+secret,id+wrong,resume,none} (conncode mappings have an empty secret, so id+secret is dropped there), one fresh mini-server per cell, requester sends TunnelOpen for the victim's predictable tunnel id; every cell is a distinct case")
+	run.Rule("full product mapping-kind{keyed,conncode} x tunnel-state{none,waiting,served} x mapping-state{active,revoked,revoked-reactivated,expired-1s,expired-1m,expired-1h,inactive,missing} x identity{unauth,unauth-p1,listen,target,other} x credential{id,id+secret,id+wrong,resume,none, and 7 near misses of the right secret: 1-char/half/all-but-last prefix, secret+suffix, case-flipped, one char changed, whitespace-padded} (conncode mappings have an empty secret: id+secret and the near misses are dropped there); between establishing the mapping state and the requester's TunnelOpen both parties send non-zero TunnelTrafficReports and heartbeats on their control connections, the server-side stats update runs and the listen client's config is fetched; one fresh mini-server per cell, requester sends TunnelOpen for the victim's predictable tunnel id; every cell is a distinct case")
 	cells := c04Cells(c04Tunnels)
 	c04RunMatrix(t, run, cells)
 	run.Exhaustive(true)
@@ -886,7 +972,10 @@ func TestVerifC04Race(t *testing.T) {
 		}
 		if cell.Kind == "conncode" && cell.Cred == "id+secret" {
 			cell.Cred = "id"
+		} else if cell.Kind == "conncode" && strings.HasPrefix(cell.Cred, "id+") && cell.Cred != "id+wrong" {
+			cell.Cred = "id+wrong"
 		}
+		cell.NoActivity = r.Intn(4) == 0
 		run.Case(cell.key(), nil)
 		obs, ok := c04RunCell(t, run, cell, 100000+i)
 		if !ok {
